@@ -1,10 +1,12 @@
 use crate::report::Report;
 use crate::Ctx;
 
+pub mod c12;
 pub mod c20;
 
 pub fn run(prop: &str, ctx: &mut Ctx) -> Option<Report> {
     match prop {
+        "C12" => Some(c12::run(ctx)),
         "C20" => Some(c20::run(ctx)),
         _ => None,
     }
